@@ -1,6 +1,14 @@
 (* C09 - theorems about the checkpoint model (Checkpoint.v).
    Sections: A names, B the object graph of a parameter state, C values <-> block state, D save / load,
-   E the step reads only saved state; resume = uninterrupted, F the certified checker. *)
+   E the step reads only saved state; resume = uninterrupted, G param-group keys.  The certified checker is in
+   CheckpointChecker.v.
+
+   Note on the order of self.state.  [state_pids] lists the parameters that own state group by group, in the order of the
+   group's parameter list.  In the implementation self.state is filled in the order in which the first local block of a
+   parameter is created (all groups), then with first parameters of groups that own no local block.  The two orders
+   coincide whenever every group's first parameter owns a local block (always in the serial layout, the one tied to the
+   implementation by harness/c09.py).  The order only fixes the order of the parameter entries of the saved dict - loading
+   looks every entry up by name - and which error is raised first when several entries are bad. *)
 From Coq Require Import ZArith List Bool String Ascii Arith Lia Decimal DecimalNat DecimalString.
 From Shampoo Require Import Scalar StateDict StateDictProofs StateDictObjProofs Optimizer OptimizerProofs Checkpoint.
 Import ListNotations.
